@@ -18,7 +18,7 @@ work = '/tmp/matrix'
 os.makedirs(work, exist_ok=True)
 os.makedirs(os.path.join(ROOT, 'gen'), exist_ok=True)
 def sh(c, env=None): return subprocess.run(c, shell=True, capture_output=True, text=True, env=env)
-muts = [d for d in sorted(glob.glob(os.path.join(ROOT, sdir, '*'))) if not names or os.path.basename(d) in names.split(',')]
+muts = [d for d in sorted(glob.glob(os.path.join(ROOT, sdir, '*'))) if os.path.isdir(d) and (not names or os.path.basename(d) in names.split(','))]
 plist = props.split(',') if props else sorted(claims.CLAIMS)
 def one(d):
     name = os.path.basename(d)
